@@ -373,11 +373,12 @@ def gen_query():
                     yield (base, layout, qc, kind, xa, xb, ya, yb)
 
 
-def _judge_sets(r, readings, tiles, got, key_missing, key_extra, what, exact):
+def _judge_sets(r, readings, tiles, got, key_missing, key_extra, what, exact, clf=None):
     """readings: list of (F dict, Q, tol). Returns (n_required, n_band)."""
+    clf = clf or classify
     nreq = nband = 0
     for idx in tiles:
-        cls = [classify(F[idx], Q, tol) for F, Q, tol in readings]
+        cls = [clf(F[idx], Q, tol) for F, Q, tol in readings]
         if all(c == "in" for c in cls):
             nreq += 1
             if idx not in got:
@@ -1485,6 +1486,709 @@ def run_gt_multi(case):
 
 
 # =================================================================================================
+# self-review additions (lessons of the seeding rounds)
+# =================================================================================================
+import copy as _copy  # noqa: E402
+
+import numpy as np  # noqa: E402
+import shapely.geometry as _sg  # noqa: E402
+
+from odc.geo import shape_, wh_  # noqa: E402
+
+
+def classify_any(F, Q, tol):
+    """Query of any dimension: 'in' when it reaches more than tol into the tile, 'out' when farther than tol."""
+    if F.distance(Q) > tol:
+        return "out"
+    if F.area > 0 and F.buffer(-tol).intersects(Q):
+        return "in"
+    return "band"
+
+
+# ---- empty queries ----------------------------------------------------------------------------------
+EMPTY_TYPES = ("Polygon", "Point", "LineString", "LinearRing", "MultiPolygon", "MultiPoint", "MultiLineString",
+               "GeometryCollection")
+
+
+def gen_empty():
+    yield from itertools.product(("utm", "rot30", "geo"), ("8x8/4x4", "8x10/var"), EMPTY_TYPES, ("same", "other", "none"))
+
+
+def run_empty(case):
+    base, layout, gt, qc = case
+    c = cfg(base, layout)
+    crs = None if qc == "none" else f"EPSG:{c['epsg'] if qc == 'same' else OTHER_CRS[base]}"
+    g = geom.Geometry(getattr(_sg, gt)(), crs)
+    r = R(outcome=f"empty:{qc}:no-tiles")
+    try:
+        got = list(c["gbt"].tiles(g))
+    except ValueError:
+        if qc != "none":
+            raise
+        # a CRS-less geometry on a raster with CRS is outside the quantifier; refusing it is not a violation
+        r.outcome, r.nontrivial = "empty:crs-less:ValueError", False
+        return r
+    if got:
+        r.fail(f"tiles:empty-geometry:{gt}:{qc}-crs:tiles-returned", f"{base} {layout}: empty {gt} crs={crs} -> {got}")
+    return r
+
+
+# ---- disjoint rasters in different CRSs whose lon/lat bounding boxes overlap -----------------------------
+LAYOUTS["200x200/100"] = ((200, 200), (100, 100))
+LAYOUTS["88x88/44"] = ((88, 88), (44, 44))
+CORNERS = ("SW", "SE", "NW", "NE", "centre")
+
+
+def gen_corner():
+    yield from itertools.product((0, 30), ("big-dst", "big-src"), CORNERS, (0.5, 4.0))
+
+
+def run_corner(case):
+    rot, direction, corner, inset = case
+    Ab = (1000.0, 0.0, 1500000.0, 0.0, -1000.0, -3900000.0) if rot == 0 else _rot30(1500000.0, -3900000.0, 1000.0, -1000.0)
+    bl, sl_ = "200x200/100", "88x88/44"
+    ring = project_pts([aff_apply(Ab, x, y) for x, y in densify(rect_pts(*full_rect(bl)), 64)], 3577, 4326)
+    lo_x, hi_x = min(p[0] for p in ring), max(p[0] for p in ring)
+    lo_y, hi_y = min(p[1] for p in ring), max(p[1] for p in ring)
+    res, n = 0.001, 88
+    if corner == "centre":
+        x0, y0 = (lo_x + hi_x) / 2 - n * res / 2, (lo_y + hi_y) / 2 + n * res / 2
+    else:
+        x0 = lo_x + inset * res if corner[1] == "W" else hi_x - (n + inset) * res
+        y0 = hi_y - inset * res if corner[0] == "N" else lo_y + (n + inset) * res
+    As = (res, 0.0, round(x0, 6), 0.0, -res, round(y0, 6))
+    big, small = mk_gbt(3577, Ab, bl), mk_gbt(4326, As, sl_)
+    if direction == "big-dst":
+        dst, src, Ad, de, se, dl, sl = big, small, Ab, 3577, 4326, bl, sl_
+        Asrc = As
+    else:
+        dst, src, Ad, de, se, dl, sl = small, big, As, 4326, 3577, sl_, bl
+        Asrc = Ab
+    D = tile_polys(Ad, dl)
+    S = tile_polys_in(Asrc, sl, se, de)
+    pix = aff_pixarea(Ad)
+    Dfoot = Polygon([aff_apply(Ad, x, y) for x, y in rect_pts(*full_rect(dl))])
+    Sfoot = Polygon(project_pts([aff_apply(Asrc, x, y) for x, y in densify(rect_pts(*full_rect(sl)), 64)], se, de))
+    d = Dfoot.distance(Sfoot)
+    if d > 0.25 * aff_pixlen(Ad):
+        relation = "disjoint"
+    elif d == 0 and Dfoot.intersection(Sfoot).area > 0.5 * pix:
+        relation = "overlap"
+    else:
+        relation = "touch"
+    what = (f"EPSG:3577 raster {Ab} 200x200 (rot {rot}) and EPSG:4326 raster {As} 88x88 in the {corner} corner of its "
+            f"lon/lat bounding box, {direction}")
+    r = R()
+    deps = dst.grid_intersect(src)
+    nreq, nedges = judge_pairs(r, deps, D, S, pix, 0.01, relation, "cross-crs", f"bbox-corner:{direction}", what)
+    r.outcome = f"corner:{direction}:{'centre' if corner == 'centre' else 'corner'}:{relation}:req={bucket(nreq, -1)}:{'empty-dict' if not deps else 'keys'}"
+    return r
+
+
+# ---- bounding boxes: degenerate, far away, other encodings of the same numbers ---------------------------
+BB_ENC = ("float", "np.float32", "np.float64", "int", "neg-zero")
+BB_LAYOUTS = ("8x8/4x4", "8x10/var", "10x7/var", "8x10/zero")
+BB_FAR = 1e10  # exactly representable in binary32
+
+
+def _enc(v, enc):
+    if enc == "np.float32":
+        return np.float32(v)
+    if enc == "np.float64":
+        return np.float64(v)
+    if enc == "int" and float(v).is_integer():
+        return int(v)
+    if enc == "neg-zero" and v == 0:
+        return -0.0
+    return float(v)
+
+
+def _bb_axis(off):
+    n = off[-1]
+    vals = {-BB_FAR, -2.5, 0.0, 1.0, float(n), BB_FAR}
+    inner = [e for e in off[1:-1] if 0 < e < n]
+    if inner:
+        e = inner[0]
+        vals.update((e - 0.5, float(e), e + 0.5))
+    return sorted(vals)
+
+
+def gen_bbenc():
+    for layout in BB_LAYOUTS:
+        yo, xo = layout_offsets(layout)
+        xi = list(itertools.combinations_with_replacement(_bb_axis(xo), 2))
+        yi = list(itertools.combinations_with_replacement(_bb_axis(yo), 2))
+        for enc in BB_ENC:
+            for (xa, xb), (ya, yb) in itertools.product(xi, yi):
+                yield (layout, enc, xa, xb, ya, yb)
+
+
+def _hits_open(a, b, lo, hi):
+    """[a,b] (possibly a == b) has a point strictly inside (lo, hi)."""
+    return (max(a, lo) < min(b, hi)) if a < b else (lo < a < hi)
+
+
+def run_bbenc(case):
+    layout, enc, xa, xb, ya, yb = case
+    c = cfg("utm", layout)
+    gbt, A6 = c["gbt"], c["A"]
+    rects = tile_rects(layout)
+    nty, ntx = (len(o) - 1 for o in layout_offsets(layout))
+    degenerate = xa == xb or ya == yb
+    far = max(abs(v) for v in (xa, xb, ya, yb)) >= BB_FAR
+    cls = ("degenerate" if degenerate else "proper") + ("-far" if far else "")
+    lk = layout_kind(layout)
+    required = {i for i, (x0, y0, x1, y1) in rects.items() if _hits_open(xa, xb, x0, x1) and _hits_open(ya, yb, y0, y1)}
+    r = R()
+    # -- pixel plane
+    B = BoundingBox(_enc(xa, enc), _enc(ya, enc), _enc(xb, enc), _enc(yb, enc), None)
+    what = f"utm {layout} pixel-plane BoundingBox({xa},{ya},{xb},{yb}) given as {enc}"
+    ry, rx = gbt.range_from_bbox(B)
+    if not (_range_ok(ry, nty) and _range_ok(rx, ntx)):
+        r.fail(f"range_from_bbox:pixel-plane:{cls}:out-of-range:{lk}", f"{what}: {ry}, {rx}")
+    got_r = set(itertools.product(ry, rx))
+    if required - got_r:
+        r.fail(f"range_from_bbox:pixel-plane:{cls}:missing:{lk}", f"{what}: {ry},{rx} misses {sorted(required - got_r)}")
+    got_t = as_idx_set(gbt.tiles(B), r, f"tiles:bbox:pixel-plane:{cls}:{lk}", what)
+    if got_t != got_r:
+        r.fail(f"tiles:bbox:pixel-plane:{cls}:differs-from-range_from_bbox:{lk}", f"{what}: {sorted(got_t)} vs {ry},{rx}")
+    if enc != "float":
+        ry0, rx0 = gbt.range_from_bbox(BoundingBox(float(xa), float(ya), float(xb), float(yb), None))
+        if (ry0, rx0) != (ry, rx):
+            r.fail(f"range_from_bbox:pixel-plane:encoding:{enc}:answer-differs", f"{what}: {ry},{rx}; as float {ry0},{rx0}")
+    # -- same CRS, world coordinates (exact: 10 m pixels, integer origin); binary32 cannot hold them
+    if enc in ("float", "np.float64", "int"):
+        a, _, cx, _, e, cy = A6
+        xs = sorted((a * xa + cx, a * xb + cx))
+        ys = sorted((e * ya + cy, e * yb + cy))
+        Bw = BoundingBox(_enc(xs[0], enc), _enc(ys[0], enc), _enc(xs[1], enc), _enc(ys[1], enc), f"EPSG:{c['epsg']}")
+        whatw = f"utm {layout} BoundingBox{tuple(Bw.bbox)} in the raster's CRS (pixels x[{xa},{xb}] y[{ya},{yb}]) given as {enc}"
+        ryw, rxw = gbt.range_from_bbox(Bw)
+        if not (_range_ok(ryw, nty) and _range_ok(rxw, ntx)):
+            r.fail(f"range_from_bbox:same-crs:{cls}:out-of-range:{lk}", f"{whatw}: {ryw}, {rxw}")
+        got_rw = set(itertools.product(ryw, rxw))
+        if required - got_rw:
+            r.fail(f"range_from_bbox:same-crs:{cls}:missing:{lk}", f"{whatw}: {ryw},{rxw} misses {sorted(required - got_rw)}")
+        tw = list(gbt.tiles(Bw))
+        got_tw = as_idx_set(tw, r, f"tiles:bbox:same-crs:{cls}:{lk}", whatw)
+        if required - got_tw:
+            r.fail(f"tiles:bbox:same-crs:{cls}:missing:{lk}", f"{whatw}: {sorted(got_tw)} misses {sorted(required - got_tw)}")
+        if got_tw - got_rw:
+            r.fail(f"tiles:bbox:same-crs:{cls}:outside-range_from_bbox:{lk}", f"{whatw}: {sorted(got_tw)} vs {ryw},{rxw}")
+        tp = list(gbt.tiles(Bw.polygon))
+        if tp != tw:
+            r.fail(f"tiles:bbox:same-crs:{cls}:differs-from-tiles-of-its-polygon:{lk}", f"{whatw}: {tw} vs {tp}")
+    r.outcome = f"bbox:{cls}:{enc}:req={bucket(len(required), len(rects))}:got={bucket(len(got_r), len(rects))}"
+    return r
+
+
+# ---- huge rasters -----------------------------------------------------------------------------------------
+HUGE_N = 1_000_000
+
+
+def _huge_chunks(n):
+    c = [512, 256, 512, 512]
+    rest = n - sum(c)
+    c += [2048] * (rest // 2048)
+    if rest % 2048:
+        c.append(rest % 2048)
+    return tuple(c)
+
+
+def _huge_offsets(n, how):
+    if isinstance(how, tuple):
+        return np.concatenate([[0], np.cumsum(how)]).astype("int64")
+    return np.asarray(list(range(0, n, how)) + [n], dtype="int64")
+
+
+HUGE_V = (-1e6, -3.0, 0.0, 2047.5, 2048.0, 500000.25, 999999.0, 1e6, 1e6 + 3, 2e6)
+HUGE_REL = {"identical": (1.0, 0.0, 0.0), "shift": (1.0, 1000.5, -3.0), "scale2": (2.0, 0.0, 0.0),
+            "far-shift": (1.0, -500000.0, 0.0)}
+_HUGE = {}
+
+
+def huge_gbt(ny, nx, tiling):
+    """tiling: 'regular' | 'variable'; returns GeoboxTiles, row offsets, column offsets."""
+    key = (ny, nx, tiling)
+    v = _HUGE.get(key)
+    if v is None:
+        if tiling == "regular":
+            how, hy, hx = (2048, 2048), 2048, 2048
+        else:
+            hy = _huge_chunks(ny) if ny > 5000 else (1024, ny - 1024)
+            hx = _huge_chunks(nx)
+            how = (hy, hx)
+        v = (how, _huge_offsets(ny, hy), _huge_offsets(nx, hx))
+        _HUGE[key] = v
+    return v
+
+
+def gen_huge():
+    iv = list(itertools.combinations(range(len(HUGE_V)), 2))
+    for tiling in ("regular", "variable"):
+        for (ia, ib), (ja, jb) in itertools.product(iv, iv):
+            yield ("query", tiling, ia, ib, ja, jb)
+    for rel, dt, st in itertools.product(HUGE_REL, ("regular", "variable"), ("regular", "variable")):
+        yield ("strip", rel, dt, st, 0, 0)
+
+
+def _axis_flags(a, b, off):
+    lo, hi = off[:-1], off[1:]
+    w0, w1 = np.maximum(a, lo), np.minimum(b, hi)
+    return (w1 > w0), (w1 >= w0)
+
+
+def run_huge(case):
+    r = R()
+    epsg, A6, _ = BASES["utm"]
+    crs = f"EPSG:{epsg}"
+    if case[0] == "query":
+        _, tiling, ia, ib, ja, jb = case
+        xa, xb, ya, yb = HUGE_V[ia], HUGE_V[ib], HUGE_V[ja], HUGE_V[jb]
+        how, yo, xo = huge_gbt(HUGE_N, HUGE_N, tiling)
+        gbt = _HUGE.get(("gbt", tiling))
+        if gbt is None:
+            gbt = _HUGE[("gbt", tiling)] = GeoboxTiles(GeoBox((HUGE_N, HUGE_N), Affine(*A6), crs), how)
+        reqx, tchx = _axis_flags(xa, xb, xo)
+        reqy, tchy = _axis_flags(ya, yb, yo)
+        what = f"1e6 x 1e6 px, {tiling} 2048-px tiles: pixels x[{xa},{xb}] y[{ya},{yb}]"
+        ry, rx = gbt.range_from_bbox(BoundingBox(xa, ya, xb, yb, None))
+        for rg, req, nm in ((ry, reqy, "rows"), (rx, reqx, "cols")):
+            if not _range_ok(rg, len(req)):
+                r.fail(f"range_from_bbox:pixel-plane:huge:out-of-range:{tiling}", f"{what}: {nm} {rg}")
+            idx = np.nonzero(req)[0]
+            if len(idx) and not (len(rg) and rg[0] <= idx[0] and idx[-1] <= rg[-1]):
+                r.fail(f"range_from_bbox:pixel-plane:huge:missing:{tiling}",
+                       f"{what}: {nm} {rg} but tiles {idx[0]}..{idx[-1]} overlap")
+        nq = 0
+        if tchx.sum() <= 5 and tchy.sum() <= 5:
+            a, _, cx, _, e, cy = A6
+            g = geom.box(a * xa + cx, e * yb + cy, a * xb + cx, e * ya + cy, crs)
+            got = as_idx_set(gbt.tiles(g), r, f"tiles:geometry:huge:{tiling}", what)
+            need = {(int(i), int(j)) for i in np.nonzero(reqy)[0] for j in np.nonzero(reqx)[0]}
+            nq = len(need)
+            if need - got:
+                r.fail(f"tiles:geometry:huge:missing:{tiling}", f"{what}: missing {sorted(need - got)}, got {sorted(got)}")
+            bad = sorted(i for i in got if not (0 <= i[0] < len(tchy) and 0 <= i[1] < len(tchx) and tchy[i[0]] and tchx[i[1]]))
+            if bad:
+                r.fail(f"tiles:geometry:huge:extra:{tiling}", f"{what}: {bad} do not meet the query")
+            r.outcome = f"huge:query+geometry:req={bucket(nq, -1)}"
+        else:
+            r.outcome = f"huge:query:pixel-only:rows={bucket(int(reqy.sum()), len(reqy))}:cols={bucket(int(reqx.sum()), len(reqx))}"
+        return r
+    _, rel, dt, st, _, _ = case
+    sc, ox, oy = HUGE_REL[rel]
+    ny, nx = 4096, HUGE_N
+    dhow, dyo, dxo = huge_gbt(ny, nx, dt)
+    show, syo, sxo = huge_gbt(ny, nx, st)
+    As = aff_mul(A6, aff_mul(aff_T(ox, oy), aff_S(sc, sc)))
+    dst = GeoboxTiles(GeoBox((ny, nx), Affine(*A6), crs), dhow)
+    src = GeoboxTiles(GeoBox((ny, nx), Affine(*As), crs), show)
+    what = f"4096 x 1e6 px strips, dst {dt} / src {st} tiles, src pixel = {sc} dst px, shift ({ox},{oy})"
+    deps = dst.grid_intersect(src)
+    nreq = 0
+
+    def per_axis(doff, soff, o):
+        s0, s1 = o + sc * soff[:-1], o + sc * soff[1:]
+        out = []
+        for i in range(len(doff) - 1):
+            w = np.minimum(doff[i + 1], s1) - np.maximum(doff[i], s0)
+            js = np.nonzero(w > 0)[0]
+            out.append([(int(j), float(w[j])) for j in js])
+        return out
+
+    ylist, xlist = per_axis(dyo, syo, oy), per_axis(dxo, sxo, ox)
+    nsy, nsx = len(syo) - 1, len(sxo) - 1
+    for iy, ix in itertools.product(range(len(dyo) - 1), range(len(dxo) - 1)):
+        listed = deps.get((iy, ix))
+        lset = set() if listed is None else {(int(j[0]), int(j[1])) for j in listed}
+        if any(not (0 <= j[0] < nsy and 0 <= j[1] < nsx) for j in lset):
+            r.fail(f"grid_intersect:src-index-out-of-range:linear:huge:{rel}", f"{what}: {(iy, ix)} -> {sorted(lset)}")
+        for (jy, wy), (jx, wx) in itertools.product(ylist[iy], xlist[ix]):
+            if wx * wy > 0.5:
+                nreq += 1
+                if (jy, jx) not in lset:
+                    r.fail(f"grid_intersect:missing-edge:linear:huge:{rel}:{dt}-vs-{st}",
+                           f"{what}: dst tile {(iy, ix)} overlaps src tile {(jy, jx)} by {wx * wy} px, listed {sorted(lset)}")
+    r.outcome = f"huge:strip:{rel}:req={bucket(nreq, -1)}"
+    return r
+
+
+# ---- grids within / just outside the documented snapping tolerances -------------------------------------
+SNAP_F = (0.9, 0.999, 1.001, 1.1, 10.0)
+SNAP_W = 1e-2  # source pixels; snapping may move a mapped edge by 1e-3 + 1e-6 * 2000 on either side
+
+
+def gen_snap():
+    tier = _TIER[0]
+    bases = ("1", "2", "1/2", "1/3") if tier == "quick" else ("1", "2", "3", "1/2", "1/3", "1/1024", "1024")
+    ds = [sg * f * 1e-6 for f in SNAP_F + (900.0,) for sg in (1, -1)]
+    dt = [sg * f * 1e-3 for f in SNAP_F + (500.0,) for sg in (1, -1)]
+    for sl in (0, 1):
+        for b, d in itertools.product(bases, ds):
+            yield ("scale", b, d, 0, sl)
+        for b, k, d in itertools.product(("1", "2"), (0, 3), dt):
+            yield ("shift", b, d, k, sl)
+
+
+def run_snap(case):
+    from fractions import Fraction as Fr  # pylint: disable=import-outside-toplevel
+
+    fam, b, d, k, sl = case
+    n = float(b.split("/")[-1])
+    if fam == "scale":
+        a = (n + d) if "/" not in b else 1.0 / (n + d)
+        cx = cy = 0.0
+        inside = abs(d) < 1e-6
+    else:
+        a = n
+        cx, cy = k + d, -(k + d)
+        inside = abs(d) < 1e-3
+    # A: destination pixel -> source pixel (what _check_linear computes and snaps); M is its inverse
+    M = (1 / a, 0.0, -cx / a, 0.0, 1 / a, -cy / a)
+    epsg, Ad, _ = BASES["utm"]
+    As = aff_mul(Ad, M)
+    dl, sly = "2000x2000/500", ("2000x2000/500", "2000x2000/var")[sl]
+    dst, src = mk_gbt(epsg, Ad, dl), mk_gbt(epsg, As, sly)
+    dyo, dxo = layout_offsets(dl)
+    syo, sxo = layout_offsets(sly)
+    fa, fx, fy = Fr(a), Fr(cx), Fr(cy)
+    window = "inside-tolerance" if inside else "outside-tolerance"
+    what = (f"dst 2000x2000/500 px, src {sly}: src_pixel = {a!r} * dst_pixel + ({cx!r},{cy!r}) "
+            f"[{fam} {b} {'+' if d >= 0 else '-'} {abs(d):g}]")
+    r = R()
+    deps = dst.grid_intersect(src)
+    dt_ = {(i, j) for i in range(len(dyo) - 1) for j in range(len(dxo) - 1)}
+    st_ = {(i, j) for i in range(len(syo) - 1) for j in range(len(sxo) - 1)}
+    norm = check_deps_structure(r, deps, dt_, st_, "linear:near-snap", what)
+    nreq = 0
+    if norm is not None:
+        w_min = Fr(SNAP_W)
+        for iy, ix in sorted(dt_):
+            listed = norm.get((iy, ix), set())
+            x0, x1 = fa * dxo[ix] + fx, fa * dxo[ix + 1] + fx
+            y0, y1 = fa * dyo[iy] + fy, fa * dyo[iy + 1] + fy
+            for jy, jx in sorted(st_):
+                wx = min(x1, sxo[jx + 1]) - max(x0, sxo[jx])
+                wy = min(y1, syo[jy + 1]) - max(y0, syo[jy])
+                if wx > w_min and wy > w_min and wx * wy > Fr(1, 2) * fa * fa:
+                    nreq += 1
+                    if (jy, jx) not in listed:
+                        r.fail(f"grid_intersect:missing-edge:linear:near-snap:{fam}:{window}",
+                               f"{what}: dst tile {(iy, ix)} overlaps src tile {(jy, jx)} by {float(wx)} x {float(wy)} "
+                               f"src px, listed {sorted(listed)}")
+    r.outcome = f"snap:{fam}:{b}:{window}:req={bucket(nreq, -1)}"
+    return r
+
+
+# ---- one instance, several operations; lazily filled state read first ------------------------------------
+HI_PRELUDES = ("none", "extent", "boundingbox", "geographic_extent", "footprint", "crs-epsg", "tile-extents")
+HI_OPS = ("tiles-triangle-same-crs", "tiles-box-4326", "grid_intersect-linear", "grid_intersect-general")
+
+
+def gen_hinst():
+    k = 0
+    for base, layout, pre, order in itertools.product(
+        ("utm", "rot30"), ("8x8/4x4", "8x10/var"), HI_PRELUDES, itertools.permutations(range(len(HI_OPS)))
+    ):
+        k += 1
+        yield (k, base, layout, pre, order)
+
+
+def _prelude(pre, gboxes, crss):
+    for g in gboxes:
+        if pre == "extent":
+            _ = g.extent
+        elif pre == "boundingbox":
+            _ = g.boundingbox
+        elif pre == "geographic_extent":
+            _ = g.geographic_extent
+        elif pre == "footprint":
+            _ = g.footprint(4326)
+    if pre == "crs-epsg":
+        for c in crss:
+            _ = c.epsg
+
+
+def run_hinst(case):
+    from odc.geo.crs import CRS  # pylint: disable=import-outside-toplevel
+
+    k, base, layout, pre, order = case
+    epsg, A0, _ = BASES[base]
+    Ad = aff_mul(aff_T(2000.0 * k, -700.0 * k), A0)  # a raster no other case uses
+    crs = f"EPSG:{epsg}"
+    shape, tiling = LAYOUTS[layout]
+    A_lin = aff_mul(Ad, aff_T(2.5, -3.25))
+    A_rot = aff_mul(Ad, aff_mul(aff_T(7.0, 5.0), aff_R(30)))
+    tri = [aff_apply(Ad, x, y) for x, y in ((0.5, 0.5), (6.5, 0.5), (0.5, 6.5))]
+    boxw = [aff_apply(Ad, x, y) for x, y in rect_pts(2.5, 1.25, 5.5, 2.75)]
+    box4326 = project_pts(boxw, epsg, 4326)
+
+    def operands():
+        g0 = GeoBox(shape, Affine(*Ad), crs)
+        gl = GeoBox(LAYOUTS["7x10/3x4"][0], Affine(*A_lin), crs)
+        gr = GeoBox(LAYOUTS["8x10/var"][0], Affine(*A_rot), crs)
+        q1 = geom.polygon(tri + [tri[0]], crs)
+        q2 = geom.polygon(box4326 + [box4326[0]], "EPSG:4326")
+        return g0, gl, gr, q1, q2
+
+    def run_op(G, op, ops):
+        _, gl, gr, q1, q2 = ops
+        if op == 0:
+            return list(G.tiles(q1))
+        if op == 1:
+            return list(G.tiles(q2))
+        if op == 2:
+            return G.grid_intersect(GeoboxTiles(gl, LAYOUTS["7x10/3x4"][1]))
+        return G.grid_intersect(GeoboxTiles(gr, LAYOUTS["8x10/var"][1]))
+
+    def norm(v):
+        if isinstance(v, dict):
+            return {(int(a), int(b)): [(int(c), int(d)) for c, d in w] for (a, b), w in v.items()}
+        return [(int(a), int(b)) for a, b in v]
+
+    r = R()
+    ref = {}
+    for op in range(len(HI_OPS)):
+        ops = operands()
+        ref[op] = norm(run_op(GeoboxTiles(ops[0], tiling), op, ops))
+    ops = operands()
+    _prelude(pre, ops[:3], [CRS(crs), ops[3].crs, ops[4].crs, ops[0].crs])
+    G = GeoboxTiles(ops[0], tiling)
+    if pre == "tile-extents":
+        _ = G.base.extent
+        for idx in tile_rects(layout):
+            _ = G[idx].extent
+    first = {}
+    for pas in ("first-pass", "second-pass"):
+        for op in order:
+            ans = norm(run_op(G, op, ops))
+            first.setdefault(op, ans)
+            if ans != ref[op]:
+                r.fail(f"history-instance:{HI_OPS[op]}:after-{pre}:differs-from-fresh-object:{pas}",
+                       f"{base}+{k} {layout}, read first: {pre}, order {[HI_OPS[o] for o in order]} ({pas}): "
+                       f"{ans} but a fresh GeoboxTiles answers {ref[op]}")
+    # state-independent clauses on what the used instance answered
+    F = {i: Polygon([aff_apply(Ad, x, y) for x, y in rect_pts(*rc)]) for i, rc in tile_rects(layout).items()}
+    tol1 = TOL_PX * aff_pixlen(Ad)
+    what = f"{base}+{k} {layout} after {pre}"
+    _judge_sets(r, [(F, Polygon(tri), tol1)], list(F), set(first[0]), f"history-instance:{HI_OPS[0]}:after-{pre}:missing",
+                f"history-instance:{HI_OPS[0]}:after-{pre}:extra", what + " triangle query", exact=True)
+    F2 = {i: Polygon(project_pts([aff_apply(Ad, x, y) for x, y in densify(rect_pts(*rc), NSIDE)], epsg, 4326))
+          for i, rc in tile_rects(layout).items()}
+    tol2 = TOL_PX * math.sqrt(sum(p.area for p in F2.values()) / (shape[0] * shape[1]))
+    _judge_sets(r, [(F, Polygon(boxw), tol1), (F2, Polygon(box4326), tol2)], list(F), set(first[1]),
+                f"history-instance:{HI_OPS[1]}:after-{pre}:missing", f"history-instance:{HI_OPS[1]}:after-{pre}:extra",
+                what + " box query in EPSG:4326", exact=True)
+    pix = aff_pixarea(Ad)
+    judge_pairs(r, first[2], F, tile_polys(A_lin, "7x10/3x4"), pix, 1e-9, "overlap",
+                f"history-instance:after-{pre}", "linear", what)
+    judge_pairs(r, first[3], F, tile_polys(A_rot, "8x10/var"), pix, 1e-9, "overlap",
+                f"history-instance:after-{pre}", "general", what)
+    r.outcome = f"history-instance:{pre}:first-op={HI_OPS[order[0]]}"
+    return r
+
+
+# ---- the same CRS / the same tiling written differently; CRSs without EPSG code ------------------------------
+_AEA = "+proj=aea +lat_0=0 +lon_0={lon} +lat_1=-18 +lat_2=-36 +x_0=0 +y_0=0 +ellps=GRS80 +units=m +no_defs"
+_PP3577 = pyproj.CRS.from_epsg(3577)
+_WKT3577 = _PP3577.to_wkt()
+_STALE133 = _WKT3577.replace('"Longitude of false origin",132', '"Longitude of false origin",133')
+assert _STALE133 != _WKT3577 and 'ID["EPSG",3577]' in _STALE133
+CRS_DEFS = {
+    # name -> (family, builder of what is handed to odc-geo, builder of the harness' own pyproj CRS)
+    "EPSG:3577": ("3577", lambda: "EPSG:3577"),
+    "epsg:3577": ("3577", lambda: "epsg:3577"),
+    "int-3577": ("3577", lambda: 3577),
+    "wkt-3577": ("3577", lambda: _WKT3577),
+    "projjson-3577": ("3577", lambda: _copy.deepcopy(_PP3577.to_json_dict())),
+    "pyproj-3577": ("3577", lambda: pyproj.CRS.from_epsg(3577)),
+    "EPSG:4326": ("4326", lambda: "EPSG:4326"),
+    "epsg:4326": ("4326", lambda: "epsg:4326"),
+    "int-4326": ("4326", lambda: 4326),
+    "wkt-4326": ("4326", lambda: pyproj.CRS.from_epsg(4326).to_wkt()),
+    "noepsg-aea131": ("aea131", lambda: _AEA.format(lon=131)),
+    "noepsg-aea133": ("aea133", lambda: _AEA.format(lon=133)),
+    "stale-id-wkt-133": ("stale133", lambda: _STALE133),
+}
+CRS_RASTER = ("EPSG:3577", "epsg:3577", "int-3577", "wkt-3577", "projjson-3577", "pyproj-3577", "noepsg-aea133")
+ENC_QUERIES = (("box", 1.5, 6.5, 0.5, 2.5), ("tri1", 0.5, 6.5, 0.5, 6.5), ("box", -2.5, 3.5, 5.0, 10.5))
+ENC_A = (25000.0, 0.0, 1500000.0, 0.0, -25000.0, -3900000.0)
+_PPX = {}
+
+
+def _pp(name):
+    v = _PPX.get(name)
+    if v is None:
+        v = _PPX[name] = pyproj.CRS.from_user_input(CRS_DEFS[name][1]())
+    return v
+
+
+def _tr_named(a, b):
+    key = ("tr", a, b)
+    v = _PPX.get(key)
+    if v is None:
+        v = _PPX[key] = pyproj.Transformer.from_crs(_pp(a), _pp(b), always_xy=True)
+    return v
+
+
+def _proj_named(pts, a, b):
+    xs, ys = _tr_named(a, b).transform([p[0] for p in pts], [p[1] for p in pts])
+    return [(float(x), float(y)) for x, y in zip(xs, ys)]
+
+
+TILING_ENC = ("tuple", "list", "numpy-ints", "Shape2d", "wh_", "chunks-tuples", "chunks-lists", "chunks-numpy-ints")
+
+
+def gen_enc():
+    for rn, qn, qi, epsg_first in itertools.product(CRS_RASTER, CRS_DEFS, range(len(ENC_QUERIES)), (False, True)):
+        yield ("crs", rn, qn, qi, epsg_first)
+    for te in TILING_ENC:
+        yield ("tiling", te, "", 0, False)
+
+
+def run_enc(case):
+    from odc.geo.crs import CRS  # pylint: disable=import-outside-toplevel
+
+    r = R()
+    if case[0] == "tiling":
+        te = case[1]
+        regular = not te.startswith("chunks")
+        shape = (8, 8) if regular else (8, 10)
+        canon = (4, 4) if regular else ((1, 3, 4), (2, 8))
+        how = {"tuple": (4, 4), "list": [4, 4], "numpy-ints": (np.int64(4), np.int32(4)), "Shape2d": shape_((4, 4)),
+               "wh_": wh_(4, 4), "chunks-tuples": ((1, 3, 4), (2, 8)), "chunks-lists": [[1, 3, 4], [2, 8]],
+               "chunks-numpy-ints": (tuple(np.int64(v) for v in (1, 3, 4)), tuple(np.int32(v) for v in (2, 8)))}[te]
+        before = _copy.deepcopy(how)
+        epsg, Ad, _ = BASES["utm"]
+        crs = f"EPSG:{epsg}"
+        G = GeoboxTiles(GeoBox(shape, Affine(*Ad), crs), how)
+        G0 = GeoboxTiles(GeoBox(shape, Affine(*Ad), crs), canon)
+        rot = GeoboxTiles(GeoBox((8, 10), Affine(*aff_mul(Ad, aff_mul(aff_T(3.0, 2.0), aff_R(30)))), crs), (3, 4))
+        checks = []
+        for kind, xa, xb, ya, yb in (("box", 0.5, 3.5, 0.5, 3.5), ("box", 1.5, 6.5, 0.75, 1.25), ("tri1", 0.5, 6.5, 0.5, 6.5),
+                                     ("box", -2.5, 12.5, 3.5, 4.5)):
+            W = [aff_apply(Ad, x, y) for x, y in query_pts(kind, xa, xb, ya, yb)]
+            q = geom.polygon(W + [W[0]], crs)
+            checks.append((f"tiles {kind} x[{xa},{xb}] y[{ya},{yb}]", list(G.tiles(q)), list(G0.tiles(q))))
+            B = BoundingBox(xa, ya, xb, yb, None)
+            checks.append((f"range_from_bbox pixel x[{xa},{xb}] y[{ya},{yb}]", G.range_from_bbox(B), G0.range_from_bbox(B)))
+        checks.append(("grid_intersect(rotated)", G.grid_intersect(rot), G0.grid_intersect(rot)))
+        checks.append(("rotated.grid_intersect", rot.grid_intersect(G), rot.grid_intersect(G0)))
+        checks.append(("shape", tuple(G.shape), tuple(G0.shape)))
+        for nm, a, b in checks:
+            if a != b:
+                r.fail(f"tiling-encoding:{te}:answer-differs", f"tiles given as {before!r}: {nm} -> {a}, as {canon!r} -> {b}")
+        if repr(how) != repr(before):
+            r.fail(f"tiling-encoding:{te}:argument-modified", f"{before!r} became {how!r}")
+        r.outcome = f"tiling-encoding:{te}"
+        return r
+    _, rn, qn, qi, epsg_first = case
+    rfam, qfam = CRS_DEFS[rn][0], CRS_DEFS[qn][0]
+    rcrs, qcrs = CRS_DEFS[rn][1](), CRS_DEFS[qn][1]()
+    if epsg_first:
+        _ = CRS(CRS_DEFS[rn][1]()).epsg
+        _ = CRS(CRS_DEFS[qn][1]()).epsg
+    layout = "8x8/4x4"
+    gbt = GeoboxTiles(GeoBox(LAYOUTS[layout][0], Affine(*ENC_A), rcrs), LAYOUTS[layout][1])
+    if epsg_first:
+        _ = gbt.base.crs.epsg
+    kind, xa, xb, ya, yb = ENC_QUERIES[qi]
+    W = [aff_apply(ENC_A, x, y) for x, y in query_pts(kind, xa, xb, ya, yb)]
+    rects = tile_rects(layout)
+    F = {i: Polygon([aff_apply(ENC_A, x, y) for x, y in rect_pts(*rc)]) for i, rc in rects.items()}
+    tol1 = TOL_PX * aff_pixlen(ENC_A)
+    same = rfam == qfam
+    if same:
+        Qpts = W
+        readings = [(F, Polygon(W), tol1)]
+    else:
+        Qpts = _proj_named(W, rn, qn)
+        F2 = {i: Polygon(_proj_named([aff_apply(ENC_A, x, y) for x, y in densify(rect_pts(*rc), NSIDE)], rn, qn))
+              for i, rc in rects.items()}
+        tol2 = TOL_PX * math.sqrt(sum(p.area for p in F2.values()) / 64)
+        readings = [(F, Polygon(_proj_named(Qpts, qn, rn)), tol1), (F2, Polygon(Qpts), tol2)]
+    q = geom.polygon(Qpts + [Qpts[0]], qcrs)
+    if epsg_first:
+        _ = q.crs.epsg
+    what = (f"raster CRS given as {rn}, query {kind} px x[{xa},{xb}] y[{ya},{yb}] given in {qn}"
+            f"{' (.epsg of both read first)' if epsg_first else ''}")
+    key = f"{rfam}-raster:{qn}-query" if not same else f"same-crs:{rn}-raster:{qn}-query"
+    got = as_idx_set(gbt.tiles(q), r, f"tiles:crs-encoding:{key}", what)
+    nreq, nband = _judge_sets(r, readings, list(F), got, f"tiles:crs-encoding:{key}:missing",
+                              f"tiles:crs-encoding:{key}:extra", what, exact=True)
+    r.outcome = f"crs-encoding:{rfam}<-{qfam}:{'epsg-read-first' if epsg_first else 'plain'}:req={bucket(nreq, -1)}"
+    return r
+
+
+# ---- the same region spelled as an unusual geometry -------------------------------------------------------
+ODD_REPS = ("repeated-vertices", "single-part-MultiPolygon", "single-part-GeometryCollection", "LinearRing-from-exterior",
+            "single-part-MultiLineString", "interior-ring")
+
+
+def gen_odd():
+    for base, layout, qc, rep, kind in itertools.product(
+        ("utm", "rot30"), ("8x8/4x4", "8x10/var"), ("same", "other"), ODD_REPS, ("box", "tri1")
+    ):
+        yo, xo = layout_offsets(layout)
+        xv = (-2.5, 1.5, xo[1] + 0.5, xo[-1] - 0.75)
+        yv = (-2.5, 0.75, yo[1] + 0.5, yo[-1] - 0.75)
+        for (xa, xb), (ya, yb) in itertools.product(intervals(xv), intervals(yv)):
+            yield (base, layout, qc, rep, kind, xa, xb, ya, yb)
+
+
+def run_odd(case):
+    base, layout, qc, rep, kind, xa, xb, ya, yb = case
+    c = cfg(base, layout)
+    gbt, A6, epsg, F = c["gbt"], c["A"], c["epsg"], c["F"]
+    qepsg = epsg if qc == "same" else OTHER_CRS[base]
+    crs = f"EPSG:{qepsg}"
+    W = [aff_apply(A6, x, y) for x, y in query_pts(kind, xa, xb, ya, yb)]
+    Qpts = project_pts(W, epsg, qepsg)
+    back = project_pts(Qpts, qepsg, epsg)
+    outer_w = [aff_apply(A6, x, y) for x, y in rect_pts(-4.0, -4.0, 14.0, 14.0)]
+
+    def shapes(pts, outer):
+        ring = pts + [pts[0]]
+        if rep == "repeated-vertices":
+            dbl = [p for p in pts for _ in (0, 1)]
+            return _sg.Polygon(dbl + [dbl[0], dbl[0]]), _sg.Polygon(pts)
+        if rep == "single-part-MultiPolygon":
+            return _sg.MultiPolygon([_sg.Polygon(pts)]), _sg.Polygon(pts)
+        if rep == "single-part-GeometryCollection":
+            return _sg.GeometryCollection([_sg.Polygon(pts)]), _sg.Polygon(pts)
+        if rep == "LinearRing-from-exterior":
+            return None, _sg.LineString(ring)
+        if rep == "single-part-MultiLineString":
+            return _sg.MultiLineString([ring]), _sg.LineString(ring)
+        return None, _sg.LineString(ring)  # interior-ring: the ring of a hole, taken from .interiors
+
+    given, model = shapes(Qpts, None)
+    if rep == "LinearRing-from-exterior":
+        g = geom.polygon(Qpts + [Qpts[0]], crs).exterior
+    elif rep == "interior-ring":
+        outer = project_pts(outer_w, epsg, qepsg)
+        g = geom.polygon(outer + [outer[0]], crs, (Qpts + [Qpts[0]])[::-1]).interiors[0]
+    else:
+        g = geom.Geometry(given, crs)
+    r = R()
+    what = f"{base} {layout} {rep} of {kind} px x[{xa},{xb}] y[{ya},{yb}] in EPSG:{qepsg} ({g.geom_type})"
+    got = as_idx_set(gbt.tiles(g), r, f"tiles:odd:{rep}:{qc}-crs", what)
+    tol1 = TOL_PX * aff_pixlen(A6)
+    if qepsg == epsg:
+        readings = [(F, model, tol1)]
+    else:
+        F2 = cfg_F2(c, layout, qepsg)
+        (ny_, nx_), _ = LAYOUTS[layout]
+        tol2 = TOL_PX * math.sqrt(sum(p.area for p in F2.values()) / (ny_ * nx_))
+        readings = [(F, shapes(back, None)[1], tol1), (F2, model, tol2)]
+    nreq, nband = _judge_sets(r, readings, list(F), got, f"tiles:odd:{rep}:{qc}-crs:missing", f"tiles:odd:{rep}:{qc}-crs:extra",
+                              what, exact=True, clf=classify_any)
+    r.outcome = f"odd:{rep}:req={bucket(nreq, len(F))}:{'touch' if nband else 'clean'}"
+    return r
+
+
+# =================================================================================================
 def slices(tier):
     _TIER[0] = tier
     return [
@@ -1524,6 +2228,32 @@ def slices(tier):
                  "equal rasters tiled two ways (ordered pairs of 4 layouts) used one after the other (first, second, "
                  "first again) x {geometry queries same CRS / EPSG:4326, general-path grid_intersect both ways against "
                  "a rotated raster} x {one GeoBox object, two equal objects} x {north-up, rotated}; a fresh raster per case"),
+        e1.Slice("query-empty", gen_empty, run_empty,
+                 "3 rasters x 2 layouts x 8 empty geometry types x {same CRS, other CRS, no CRS}: no tiles, no exception"),
+        e1.Slice("pairs-cross-crs-corner", gen_corner, run_corner,
+                 "EPSG:3577 raster (north-up / rotated) vs a small EPSG:4326 raster inside each corner of its lon/lat "
+                 "bounding box (disjoint footprints, overlapping boxes) and at its centre, both directions"),
+        e1.Slice("bbox-encodings", gen_bbenc, run_bbenc,
+                 "4 layouts x {float, float32, float64, int, -0.0} x all x-intervals x y-intervals INCLUDING zero-width "
+                 "ones over {+-1e10, outside, edges, interior}: pixel-plane and same-CRS BoundingBox; superset, "
+                 "entry points agree, encodings agree"),
+        e1.Slice("huge-rasters", gen_huge, run_huge,
+                 "1e6 x 1e6 px in 2048-px tiles (regular / irregular start 512,256,512,512): all intervals over a 10-value "
+                 "axis alphabet, pixel-plane ranges and (small spans) geometry queries; 4096 x 1e6 strips: grid_intersect "
+                 "{identical, shifted, scaled, far shift} x layouts, exact integer oracle"),
+        e1.Slice("pairs-same-crs-snap", gen_snap, run_snap,
+                 "2000-px rasters: destination->source scale n+d / 1/(n+d) and whole-pixel shifts k+d with d on both "
+                 "sides (x0.9, 0.999, 1.001, 1.1, 10, 500..900) of the documented snapping tolerances; exact rationals"),
+        e1.Slice("history-instance", gen_hinst, run_hinst,
+                 "one GeoboxTiles: every order of {triangle query, EPSG:4326 box query, linear grid_intersect, general "
+                 "grid_intersect}, twice, after reading {nothing, extent, boundingbox, geographic_extent, footprint, "
+                 "crs.epsg, every tile's extent}; differential against fresh objects + oracle; a raster per case"),
+        e1.Slice("query-encodings", gen_enc, run_enc,
+                 "raster CRS spelling (7) x query CRS spelling (13: EPSG str/int/WKT/PROJJSON/pyproj, 4326, no-EPSG Albers, "
+                 "WKT with stale EPSG id) x 3 queries x {.epsg read first or not}; tile shapes / chunks in 8 spellings"),
+        e1.Slice("query-odd-geometries", gen_odd, run_odd,
+                 "repeated vertices, single-part Multi*/GeometryCollection, LinearRing from .exterior / .interiors x "
+                 "2 rasters x 2 layouts x 2 CRS x {box, triangle} x 6x6 placements; dimension-aware oracle"),
         e1.Slice("pairs-same-crs-drift", gen_drift, run_drift,
                  "2048x40000 / 40000x2048 px rasters (4x20 tiles) x src layout x {rotation, shear-x, shear-y} x terms "
                  "+-{1e-6..5e-3} x pivot {centre, corner}; all tile pairs, exact footprints"),
